@@ -118,7 +118,7 @@ PROPS = {
     "C01": {
         "lean_modules": ["RdestModel.Props.C01"],
         "cases": {"quick": 400, "thorough": 12000},
-        "rule": "scripts for the real connection task (in-memory stream, scratch working directory): assignments with correct and with deliberately wrong "
+        "rule": "three cases are end-to-end downloads of the real session incl. extraction (the C02 scenario generator: every piece at exactly one peer, one slow peer, so a fast peer is dismissed while pieces are still Reserved), output files compared by SHA-1 with the content slices; scripts for the real connection task (in-memory stream, scratch working directory): assignments with correct and with deliberately wrong "
                 "listed hashes, blocks correct / corrupt / duplicated / overlapping / unrequested / mis-indexed / truncated, several pieces per "
                 "connection, cancellation by broadcast, disconnect at any point; observed: every *.piece file written (name, SHA-1 recomputed by the "
                 "harness, length), PieceDone commands, termination; monitor P01 on the implementation's and the model's trace; manager side by the "
